@@ -2203,6 +2203,12 @@ PIP_Solution_Node::row_sign(const Row& x,
       sign = NEGATIVE;
     }
   }
+  if (sign == NEGATIVE && x.get(0) == 0) {
+    // All the coefficients are non-positive, but the constant term is zero:
+    // the row evaluates to zero when the parameters having a negative
+    // coefficient are all zero, hence it is not (strictly) negative.
+    return MIXED;
+  }
   return sign;
 }
 
@@ -2986,7 +2992,10 @@ PIP_Solution_Node::solve(const PIP_Problem& pip,
             switch (sign_i) {
             case ZERO:
               if (product > 0) {
-                sign_i = NEGATIVE;
+                // The row is strictly negative only if its constant term
+                // became negative; a negative parameter coefficient alone
+                // still allows for the value zero.
+                sign_i = (j.index() == 0) ? NEGATIVE : MIXED;
               }
               else if (product < 0) {
                 sign_i = POSITIVE;
